@@ -49,6 +49,7 @@ def run(sc, tier, seed):
 
 
 def replay(sc, path):
+    path = os.path.abspath(path)
     seg = os.path.join(path, "segment.ndjson")
     val = V.validate_traces(sc, "BatchSchedule", "BatchScheduleTraceMC.tla", "BatchScheduleTrace.cfg", [seg])
     if val["accepted"]:
